@@ -425,12 +425,25 @@ def model_runs(tr):
 
         def calls(fn, seen):
             acc = []
+            # locals that hold a component (`t = self.transfer`): uses of their attributes count like `self.transfer.<attr>`
+            alias = {}
             for nd in ast.walk(fn):
+                if isinstance(nd, ast.Assign) and len(nd.targets) == 1 and isinstance(nd.targets[0], ast.Name):
+                    v = nd.value
+                    if isinstance(v, ast.Attribute) and isinstance(v.value, ast.Name) and v.value.id == "self" and v.attr in quants:
+                        alias[nd.targets[0].id] = v.attr
+            for nd in ast.walk(fn):
+                # every use of an attribute of a component held in a cached quantity — called on the spot, bound to a local first
+                # (`lnt = self.transfer.lnt`), or passed on — is a use of that component method
+                if isinstance(nd, ast.Attribute) and isinstance(nd.ctx, ast.Load):
+                    v = nd.value
+                    if isinstance(v, ast.Attribute) and isinstance(v.value, ast.Name) and v.value.id == "self" and v.attr in quants:
+                        acc.append(f"{v.attr}.{nd.attr}")
+                    elif isinstance(v, ast.Name) and v.id in alias:
+                        acc.append(f"{alias[v.id]}.{nd.attr}")
                 if isinstance(nd, ast.Call) and isinstance(nd.func, ast.Attribute):
                     f = nd.func
-                    if isinstance(f.value, ast.Attribute) and isinstance(f.value.value, ast.Name) and f.value.value.id == "self" and f.value.attr in quants:
-                        acc.append(f"{f.value.attr}.{f.attr}")
-                    elif isinstance(f.value, ast.Name) and f.value.id == "self" and f.attr not in seen:
+                    if isinstance(f.value, ast.Name) and f.value.id == "self" and f.attr not in seen:
                         for oo in tr.mro.get(o, [o]):
                             h = tr.infos[oo].methods.get(f.attr)
                             if h is not None:
